@@ -110,6 +110,41 @@ func (s *followerReplication) notifyAll(leader bool) {
 	}
 }
 
+// pendingNotify returns the verify futures that are waiting right now. Only a
+// request sent after a future was registered can vouch for it: the response to
+// a request the follower handled earlier says nothing about who leads now.
+func (s *followerReplication) pendingNotify() map[*verifyFuture]struct{} {
+	s.notifyLock.Lock()
+	defer s.notifyLock.Unlock()
+	if len(s.notify) == 0 {
+		return nil
+	}
+	n := make(map[*verifyFuture]struct{}, len(s.notify))
+	for v := range s.notify {
+		n[v] = struct{}{}
+	}
+	return n
+}
+
+// notifyPending tells the verify futures of pending, a set taken with
+// pendingNotify before a request was sent, that the follower accepted that
+// request from us as leader.
+func (s *followerReplication) notifyPending(pending map[*verifyFuture]struct{}) {
+	s.notifyLock.Lock()
+	for v := range pending {
+		if _, ok := s.notify[v]; ok {
+			delete(s.notify, v)
+		} else {
+			delete(pending, v)
+		}
+	}
+	s.notifyLock.Unlock()
+
+	for v := range pending {
+		v.vote(true)
+	}
+}
+
 // cleanNotify is used to delete notify, .
 func (s *followerReplication) cleanNotify(v *verifyFuture) {
 	s.notifyLock.Lock()
@@ -203,6 +238,7 @@ func (r *Raft) replicateTo(s *followerReplication, lastIndex uint64) (shouldStop
 	// Create the base request
 	var req AppendEntriesRequest
 	var resp AppendEntriesResponse
+	var pending map[*verifyFuture]struct{}
 	var start time.Time
 	var peer Server
 
@@ -228,6 +264,7 @@ START:
 
 	// Make the RPC call
 	start = time.Now()
+	pending = s.pendingNotify()
 	if err := r.trans.AppendEntries(peer.ID, peer.Address, &req, &resp); err != nil {
 		r.logger.Error("failed to appendEntries to", "peer", peer, "error", err)
 		s.failures++
@@ -247,7 +284,7 @@ START:
 	// Update s based on success
 	if resp.Success {
 		// Update our replication state
-		updateLastAppended(s, &req)
+		updateLastAppended(s, &req, pending)
 
 		// Clear any failures, allow pipelining
 		s.failures = 0
@@ -342,6 +379,7 @@ func (r *Raft) sendLatestSnapshot(s *followerReplication) (bool, error) {
 	// Make the call
 	start := time.Now()
 	var resp InstallSnapshotResponse
+	pending := s.pendingNotify()
 	if err := r.trans.InstallSnapshot(peer.ID, peer.Address, &req, &resp, snapshot); err != nil {
 		r.logger.Error("failed to install snapshot", "peer", peer.ID, "id", snapID, "error", err)
 		s.failures++
@@ -374,7 +412,7 @@ func (r *Raft) sendLatestSnapshot(s *followerReplication) (bool, error) {
 		s.failures = 0
 
 		// Notify we are still leader
-		s.notifyAll(true)
+		s.notifyPending(pending)
 	} else {
 		s.failures++
 		r.logger.Warn("installSnapshot rejected to", "peer", peer.ID, "id", snapID)
@@ -409,6 +447,7 @@ func (r *Raft) heartbeat(s *followerReplication, stopCh chan struct{}) {
 		s.peerLock.RUnlock()
 
 		start := time.Now()
+		pending := s.pendingNotify()
 		if err := r.trans.AppendEntries(peer.ID, peer.Address, &req, &resp); err != nil {
 			nextBackoffTime := cappedExponentialBackoff(failureWait, failures, maxFailureScale, r.config().HeartbeatTimeout/2)
 			r.logger.Error("failed to heartbeat to", "peer", peer.Address, "backoff time",
@@ -434,7 +473,11 @@ func (r *Raft) heartbeat(s *followerReplication, stopCh chan struct{}) {
 				metrics.MeasureSince([]string{"raft", "replication", "heartbeat", string(peer.ID)}, start)
 			}
 
-			s.notifyAll(resp.Success)
+			if resp.Success {
+				s.notifyPending(pending)
+			} else {
+				s.notifyAll(false)
+			}
 		}
 	}
 }
@@ -565,8 +608,11 @@ func (r *Raft) pipelineDecode(s *followerReplication, p AppendPipeline, stopCh, 
 				return
 			}
 
-			// Update our replication state
-			updateLastAppended(s, req)
+			// Update our replication state. The response does not vouch for
+			// waiting verify futures: it is not known here which of them were
+			// registered before the request went out. The heartbeat that
+			// verifyLeader triggers answers them.
+			updateLastAppended(s, req, nil)
 		case <-stopCh:
 			return
 		}
@@ -659,7 +705,7 @@ func (r *Raft) handleStaleTerm(s *followerReplication) {
 // updateLastAppended is used to update follower replication state after a
 // successful AppendEntries RPC.
 // TODO: This isn't used during InstallSnapshot, but the code there is similar.
-func updateLastAppended(s *followerReplication, req *AppendEntriesRequest) {
+func updateLastAppended(s *followerReplication, req *AppendEntriesRequest, pending map[*verifyFuture]struct{}) {
 	// Mark any inflight logs as committed
 	if logs := req.Entries; len(logs) > 0 {
 		last := logs[len(logs)-1]
@@ -668,5 +714,5 @@ func updateLastAppended(s *followerReplication, req *AppendEntriesRequest) {
 	}
 
 	// Notify still leader
-	s.notifyAll(true)
+	s.notifyPending(pending)
 }
